@@ -17,18 +17,24 @@ REPLAY_BY_RERUN = True  # workloads are deterministic in (tier, seed, shard): re
 SHARDS = {"quick": 4, "thorough": 4}
 TIMEOUT = {"quick": 600, "thorough": 1800}
 
+import datetime as _dt
+from decimal import Decimal
+from fractions import Fraction
+
 WRONG = {
+    "decimal": Decimal("1.5"), "fraction": Fraction(1, 2), "complex": 1 + 2j, "date": _dt.date(2020, 1, 2),
+    "time_of_day": _dt.time(1, 2, 3), "timedelta": _dt.timedelta(seconds=5), "set": frozenset({"a"}),
     "int": 5, "float": 2.5, "bool": True, "bytes": b"x", "none": None, "list": ["a"], "dict": {"a": 1},
     "str": "abc", "numstr": "12", "tuple": ("a",), "false": False, "zero": 0,
 }
 # which wrong values are invalid for which slot
 INVALID_FOR = {
-    "time": ["int", "float", "bool", "bytes", "list", "dict", "str", "numstr", "tuple"],
+    "time": ["int", "float", "bool", "bytes", "list", "dict", "str", "numstr", "tuple", "date", "time_of_day", "timedelta"],
     "measurement": ["int", "float", "bool", "bytes", "list", "dict", "tuple"],
-    "tag_key": ["int", "float", "bool", "bytes", "none", "tuple"],
-    "tag_value": ["int", "float", "bool", "bytes", "list", "dict", "tuple", "false", "zero"],
-    "field_key": ["int", "float", "bool", "bytes", "none", "tuple"],
-    "field_value": ["bool", "bytes", "list", "dict", "str", "numstr", "tuple", "false"],
+    "tag_key": ["int", "float", "bool", "bytes", "none", "tuple", "set", "date"],
+    "tag_value": ["int", "float", "bool", "bytes", "list", "dict", "tuple", "false", "zero", "decimal", "date"],
+    "field_key": ["int", "float", "bool", "bytes", "none", "tuple", "set", "decimal"],
+    "field_value": ["bool", "bytes", "list", "dict", "str", "numstr", "tuple", "false", "decimal", "fraction", "complex", "timedelta"],
 }
 SLOTS = list(INVALID_FOR)
 
